@@ -32,5 +32,4 @@ PROPERTY DefsPersist
 PROPERTY Isolation
 PROPERTY LoadOnlyInLoadStep
 PROPERTY BindsExactly
-PROPERTY Terminates
 CHECK_DEADLOCK FALSE
